@@ -79,25 +79,23 @@ def conversions_rule(ctx, facts, rid):
     if disp is None:
         r.anchor_missing("Display for uci::Move")
     else:
-        fb = FxBuilder(facts)
-        tree = fb.tree(disp)
+        # what Display writes, by evaluating its model (whatever the shape: one write per letter, a chosen suffix, a table)
+        from .machine import run_function, Stuck
+        from .teval import Unsupported, Panic
         got = {}
         null_txt = None
-        for n_, conds, _i in walk_tree(tree):
-            if n_[0] == "call" and any(a[0] == "str" for a in n_[3]):
-                txt = [a[1] for a in n_[3] if a[0] == "str"][0]
-                keys = []
-                for d, lab, _cv in conds:
-                    s = show(unstamp(d))
-                    if "promote" in s and lab != "else":
-                        keys.append((s, lab))
-                    if s == "discr(*self)" and lab != "else":
-                        keys.append(("variant", lab))
-                if ("variant", (0,)) in keys:
-                    null_txt = txt
-                for s, lab in keys:
-                    if s.endswith("promote as Some)") or "promote as Some" in s:
-                        got[lab[0]] = txt
+        UM = U + "Move" if not U.endswith("Move") else U
+        try:
+            null_txt = "".join(run_function(facts, disp, {1: ("agg", "Null", (), UM)}, deref_self=True)[1])
+            for dv in sorted(pp.values()):
+                t_ = "".join(run_function(facts, disp, {1: ("agg", "Move", (52, 36, ("agg", "Some", (dv,))), UM)}, deref_self=True)[1])
+                t0 = "".join(run_function(facts, disp, {1: ("agg", "Move", (52, 36, ("agg", "None", ())), UM)}, deref_self=True)[1])
+                if t_.startswith(t0) and len(t_) == len(t0) + 1:
+                    got[dv] = t_[len(t0):]
+                else:
+                    got[dv] = t_
+        except (Stuck, Unsupported, Panic) as ex:
+            got = {"not evaluable": str(ex)[:80]}
         want = {pp[v]: k for k, v in letters.items()}
         r.check(got == want and null_txt == "0000", "uci-writer-letters", "uci::Move Display writes promotion letters %s (expected %s) and null as %r"
                 % (got, want, null_txt), site=ctx.site(disp), what="writer: n/b/r/q, null = 0000")
